@@ -1,3 +1,360 @@
 import PyaModel.Proofs.C15
+/-!
+# Props/C15 — type-variable solutions satisfy the bounds they were solved from
+
+Model: `solve le join` (Core/TypeVar.lean, follows `pyanalyze/typevar.py: solve` branch by branch),
+parametrised by the assignability relation `le a b` ("`a` may be assigned to `b`") and by
+`join` (`unite_values`). Spec: `Sat` / `specOk` (Spec/TypeVarSpec.lean). All theorems are about
+every list of bounds — no size bound — and come in three forms:
+
+* algebraic: for every `le`, `join` and carrier `S` such that `le` is a preorder on `S` with least
+  upper bounds `join` (`Laws`, fields `le_refl`, `le_trans`, …), `S` closed under `join`, `Any`
+  compatible with everything (`AnyLaws`), and bound values in `S ∪ {Any}`;
+* decidable (`…_local`): the same conclusion from the *finite* check `D15_nonTransitive le join bs = false`
+  (the laws hold on the values the solver meets on this input), the form the driver evaluates;
+* instantiated with the shared models (`solveCa tbl`, i.e. `le := ca tbl false`, `join := unite`).
+
+Exception classes (Spec/TypeVarSpec.lean): `D15_twoUppers`, `D15_anyUpper`, `D15_oneOfUpper`,
+`D15_nonTransitive`; each has a witness below on which the full statement is false.
+-/
 namespace Pya.C15
+
+/-! ## full statements (not asserted) -/
+
+/-- the solution accepts every lower bound -/
+def LowerFull (le : Ty → Ty → Bool) (join : Ty → Ty → Ty) : Prop :=
+  ∀ bs s src, solve le join bs = .ok s src → ∀ l ∈ lowers bs, le l s = true
+/-- the solution is accepted by every upper bound (a declared `bound=` is an upper bound) -/
+def UpperFull (le : Ty → Ty → Bool) (join : Ty → Ty → Ty) : Prop :=
+  ∀ bs s src, solve le join bs = .ok s src → ∀ u ∈ uppers bs, le s u = true
+/-- the verdict does not depend on the order of the bounds -/
+def OrderFull (le : Ty → Ty → Bool) (join : Ty → Ty → Ty) : Prop :=
+  ∀ bs bs', bs.Perm bs' → (solve le join bs).isOk = (solve le join bs').isOk
+
+/-! ## lower bounds — full strength -/
+
+/-- **C15, lower bounds, full strength.** Let `le` be reflexive and transitive on a carrier `S`
+closed under `join`, `join a b` an upper bound of `a` and `b` (hypotheses `laws.le_refl`,
+`laws.le_trans`, `laws.le_join_left/right`), and `Any` assignable both ways. For every list of
+bounds over `S ∪ {Any}` — any length, any order, with or without constraints — an accepted solve
+returns a value that accepts *every* lower bound. -/
+theorem solve_lower {S : Ty → Prop} {le : Ty → Ty → Bool} {join : Ty → Ty → Ty}
+    (laws : Laws S le join) (anyLaws : AnyLaws le) (join_closed : ∀ a b, S a → S b → S (join a b))
+    (bs : List Bound) (hvals : ∀ v ∈ boundVals bs, v = .any ∨ S v) {s : Ty} {src : Src}
+    (h : solve le join bs = .ok s src) : ∀ l ∈ lowers bs, le l s = true :=
+  solve_lower_core laws anyLaws bs (reach_AS_of_closed anyLaws join_closed bs hvals) h
+
+/-- The same from a decidable hypothesis on the input alone: assignability is reflexive,
+transitive and `join` an upper bound *on the finitely many values the solver meets on `bs`*. -/
+theorem solve_lower_local {le : Ty → Ty → Bool} {join : Ty → Ty → Ty} (anyLaws : AnyLaws le)
+    (bs : List Bound) (hnt : D15_nonTransitive le join bs = false) {s : Ty} {src : Src}
+    (h : solve le join bs = .ok s src) : ∀ l ∈ lowers bs, le l s = true := by
+  have hl : lawsOn le join (reach le join bs) = true := by simpa [D15_nonTransitive] using hnt
+  exact solve_lower_core (laws_of_lawsOn _ hl) anyLaws bs (as_sloc _) h
+
+/-- **… for the modelled `can_assign` and `unite_values`.** Outside the class `nonTransitive`, the
+value `resolve_bounds_map` chooses accepts every argument-derived lower bound. -/
+theorem solveCa_lower_partial (tbl : ClassTable) (bs : List Bound)
+    (hnt : D15_nonTransitive (leCa tbl) joinU bs = false) {s : Ty} {src : Src}
+    (h : solveCa tbl bs = .ok s src) : ∀ l ∈ lowers bs, ca tbl false s l = true :=
+  solve_lower_local (anyLaws_ca tbl) bs hnt h
+
+/-! ## upper bounds — partial -/
+
+/-- **C15, upper bounds.** Under the same algebraic hypotheses, if no upper bound is `Any`
+(`¬ anyUpper`), the upper bounds are pairwise comparable (`¬ twoUppers`) and constraints do not
+come with an upper bound (`¬ oneOfUpper`), an accepted solve returns a value that every upper
+bound accepts. -/
+theorem solve_upper_partial {S : Ty → Prop} {le : Ty → Ty → Bool} {join : Ty → Ty → Ty}
+    (laws : Laws S le join) (anyLaws : AnyLaws le) (join_closed : ∀ a b, S a → S b → S (join a b))
+    (bs : List Bound) (hvals : ∀ v ∈ boundVals bs, v = .any ∨ S v)
+    (h1 : D15_anyUpper bs = false) (h2 : D15_twoUppers le bs = false) (h3 : D15_oneOfUpper bs = false)
+    {s : Ty} {src : Src} (h : solve le join bs = .ok s src) : ∀ u ∈ uppers bs, le s u = true :=
+  solve_upper_core laws anyLaws bs (reach_AS_of_closed anyLaws join_closed bs hvals) h1 h2 h3 h
+
+theorem solve_upper_local {le : Ty → Ty → Bool} {join : Ty → Ty → Ty} (anyLaws : AnyLaws le)
+    (bs : List Bound) (hnt : D15_nonTransitive le join bs = false)
+    (h1 : D15_anyUpper bs = false) (h2 : D15_twoUppers le bs = false) (h3 : D15_oneOfUpper bs = false)
+    {s : Ty} {src : Src} (h : solve le join bs = .ok s src) : ∀ u ∈ uppers bs, le s u = true := by
+  have hl : lawsOn le join (reach le join bs) = true := by simpa [D15_nonTransitive] using hnt
+  exact solve_upper_core (laws_of_lawsOn _ hl) anyLaws bs (as_sloc _) h1 h2 h3 h
+
+/-- **… for the modelled `can_assign`:** outside the four exception classes the chosen value is
+accepted by every upper bound and by the declared bound. -/
+theorem solveCa_upper_partial (tbl : ClassTable) (bs : List Bound)
+    (hnt : D15_nonTransitive (leCa tbl) joinU bs = false)
+    (h1 : D15_anyUpper bs = false) (h2 : D15_twoUppers (leCa tbl) bs = false)
+    (h3 : D15_oneOfUpper bs = false) {s : Ty} {src : Src}
+    (h : solveCa tbl bs = .ok s src) : ∀ u ∈ uppers bs, ca tbl false u s = true :=
+  solve_upper_local (anyLaws_ca tbl) bs hnt h1 h2 h3 h
+
+/-! ## constraints — full strength -/
+
+/-- **C15, constraints, full strength, no hypothesis on `le` at all.** When constraints exist
+(`cs` is the constraint list the solver ends up with), an accepted solve returns one of them, or `Any`. -/
+theorem solve_constraint (le : Ty → Ty → Bool) (join : Ty → Ty → Ty) (bs : List Bound)
+    {s : Ty} {src : Src} {cs : List Ty} (h : solve le join bs = .ok s src)
+    (hcs : lastOneOf bs = some cs) : s ∈ cs ∨ s = .any :=
+  solve_constraint_core bs h hcs
+
+/-! ## the verdict — partial -/
+
+/-- **C15, "when no such value exists the call is diagnosed" — and conversely.** Outside the
+classes `anyUpper`, `twoUppers`, `oneOfUpper`, and with at most one constraint list, the solver
+reports an error exactly when the order-free specification `specOk` finds the bounds
+unsatisfiable (`specOk_iff_exists` below: when no value of the carrier satisfies them). -/
+theorem solve_error_iff_partial {S : Ty → Prop} {le : Ty → Ty → Bool} {join : Ty → Ty → Ty}
+    (laws : Laws S le join) (anyLaws : AnyLaws le) (join_closed : ∀ a b, S a → S b → S (join a b))
+    (bs : List Bound) (hvals : ∀ v ∈ boundVals bs, v = .any ∨ S v)
+    (h1 : D15_anyUpper bs = false) (h2 : D15_twoUppers le bs = false) (h3 : D15_oneOfUpper bs = false)
+    (h4 : multiOneOf bs = false) :
+    (solve le join bs).isOk = false ↔ specOk le bs = false := by
+  rw [solve_isOk_eq_spec laws anyLaws bs (reach_AS_of_closed anyLaws join_closed bs hvals) h1 h2 h3 h4]
+
+theorem solve_error_iff_local {le : Ty → Ty → Bool} {join : Ty → Ty → Ty} (anyLaws : AnyLaws le)
+    (bs : List Bound) (hnt : D15_nonTransitive le join bs = false)
+    (h1 : D15_anyUpper bs = false) (h2 : D15_twoUppers le bs = false) (h3 : D15_oneOfUpper bs = false)
+    (h4 : multiOneOf bs = false) :
+    (solve le join bs).isOk = false ↔ specOk le bs = false := by
+  have hl : lawsOn le join (reach le join bs) = true := by simpa [D15_nonTransitive] using hnt
+  rw [solve_isOk_eq_spec (laws_of_lawsOn _ hl) anyLaws bs (as_sloc _) h1 h2 h3 h4]
+
+theorem solveCa_error_iff_partial (tbl : ClassTable) (bs : List Bound)
+    (hnt : D15_nonTransitive (leCa tbl) joinU bs = false)
+    (h1 : D15_anyUpper bs = false) (h2 : D15_twoUppers (leCa tbl) bs = false)
+    (h3 : D15_oneOfUpper bs = false) (h4 : multiOneOf bs = false) :
+    (solveCa tbl bs).isOk = false ↔ specOk (leCa tbl) bs = false :=
+  solve_error_iff_local (anyLaws_ca tbl) bs hnt h1 h2 h3 h4
+
+/-- **the specification means what it says.** For pairwise comparable non-`Any` upper bounds,
+constraints in the carrier and at most one constraint list, `specOk` holds exactly when some value of
+the carrier satisfies every bound (`Sat`: accepts every lower bound, is accepted by every upper
+bound, is one of the constraints). With `solve_error_iff_partial`: an error is reported iff no value
+satisfies the bounds. -/
+theorem specOk_iff_exists {S : Ty → Prop} {le : Ty → Ty → Bool} {join : Ty → Ty → Ty}
+    (laws : Laws S le join) (anyLaws : AnyLaws le) (join_closed : ∀ a b, S a → S b → S (join a b))
+    (bs : List Bound) (hvals : ∀ v ∈ boundVals bs, v = .any ∨ S v)
+    (hopt : ∀ cs ∈ oneOfs bs, ∀ c ∈ cs, S c)
+    (h1 : D15_anyUpper bs = false) (h2 : D15_twoUppers le bs = false) (h4 : multiOneOf bs = false)
+    (hne : ∃ a, S a) :
+    specOk le bs = true ↔ ∃ s, S s ∧ Sat le bs s :=
+  specOk_iff_exists_core laws anyLaws bs (reach_AS_of_closed anyLaws join_closed bs hvals) hopt h1 h2 h4 hne
+
+/-! ## order independence — partial -/
+
+/-- **C15, order independence.** Under the algebraic hypotheses, for bounds outside `anyUpper` and
+`twoUppers` (properties of the multiset, stated for one order only) and with at most one constraint
+list, every permutation of the bounds gets the same verdict. (Constraints together with upper
+bounds — class `oneOfUpper` — do not disturb the verdict, only the solution.) -/
+theorem solve_perm_partial {S : Ty → Prop} {le : Ty → Ty → Bool} {join : Ty → Ty → Ty}
+    (laws : Laws S le join) (anyLaws : AnyLaws le) (join_closed : ∀ a b, S a → S b → S (join a b))
+    (bs bs' : List Bound) (hperm : bs.Perm bs') (hvals : ∀ v ∈ boundVals bs, v = .any ∨ S v)
+    (h1 : D15_anyUpper bs = false) (h2 : D15_twoUppers le bs = false) (h4 : multiOneOf bs = false) :
+    (solve le join bs).isOk = (solve le join bs').isOk := by
+  have hvals' : ∀ v ∈ boundVals bs', v = .any ∨ S v := by
+    intro v hv
+    apply hvals v
+    simp only [boundVals, List.mem_append, List.mem_flatten] at hv ⊢
+    rcases hv with (hv | hv) | ⟨cs, hcs, hv⟩
+    · exact Or.inl (Or.inl ((lowers_perm hperm).mem_iff.mpr hv))
+    · exact Or.inl (Or.inr ((uppers_perm hperm).mem_iff.mpr hv))
+    · exact Or.inr ⟨cs, (oneOfs_perm hperm).mem_iff.mpr hcs, hv⟩
+  rw [solve_isOk_eq_verdictSpec laws anyLaws bs (reach_AS_of_closed anyLaws join_closed bs hvals) h1 h2 h4,
+    solve_isOk_eq_verdictSpec laws anyLaws bs' (reach_AS_of_closed anyLaws join_closed bs' hvals')
+      (by rw [anyUpper_perm hperm]; exact h1) (by rw [twoUppers_perm le hperm]; exact h2)
+      (by rw [multiOneOf_perm hperm]; exact h4),
+    verdictSpec_perm le hperm h4]
+
+/-- decidable form: the laws are checked on the values met in *both* orders -/
+theorem solve_perm_local {le : Ty → Ty → Bool} {join : Ty → Ty → Ty} (anyLaws : AnyLaws le)
+    (bs bs' : List Bound) (hperm : bs.Perm bs')
+    (hnt : D15_nonTransitive le join bs = false) (hnt' : D15_nonTransitive le join bs' = false)
+    (h1 : D15_anyUpper bs = false) (h2 : D15_twoUppers le bs = false) (h4 : multiOneOf bs = false) :
+    (solve le join bs).isOk = (solve le join bs').isOk := by
+  have hl : lawsOn le join (reach le join bs) = true := by simpa [D15_nonTransitive] using hnt
+  have hl' : lawsOn le join (reach le join bs') = true := by simpa [D15_nonTransitive] using hnt'
+  rw [solve_isOk_eq_verdictSpec (laws_of_lawsOn _ hl) anyLaws bs (as_sloc _) h1 h2 h4,
+    solve_isOk_eq_verdictSpec (laws_of_lawsOn _ hl') anyLaws bs' (as_sloc _)
+      (by rw [anyUpper_perm hperm]; exact h1) (by rw [twoUppers_perm le hperm]; exact h2)
+      (by rw [multiOneOf_perm hperm]; exact h4),
+    verdictSpec_perm le hperm h4]
+
+/-- **… for the modelled `can_assign`:** outside the classes `anyUpper`, `twoUppers`,
+`nonTransitive` the verdict of `resolve_bounds_map` does not depend on the order of the bounds. -/
+theorem solveCa_perm_partial (tbl : ClassTable) (bs bs' : List Bound) (hperm : bs.Perm bs')
+    (hnt : D15_nonTransitive (leCa tbl) joinU bs = false)
+    (hnt' : D15_nonTransitive (leCa tbl) joinU bs' = false)
+    (h1 : D15_anyUpper bs = false) (h2 : D15_twoUppers (leCa tbl) bs = false)
+    (h4 : multiOneOf bs = false) :
+    (solveCa tbl bs).isOk = (solveCa tbl bs').isOk :=
+  solve_perm_local (anyLaws_ca tbl) bs bs' hperm hnt hnt' h1 h2 h4
+
+/-- `resolve_bounds_map` is `solve` after the order-preserving de-duplication; the theorems above
+apply to the de-duplicated list (on which the driver also evaluates the exception classes). -/
+theorem resolve_eq (le : Ty → Ty → Bool) (join : Ty → Ty → Ty) (bs : List Bound) :
+    resolve le join bs = solve le join (dedupB [] bs) := rfl
+
+/-- the de-duplication is order preserving: what `solve` sees is a subsequence of the bounds -/
+theorem resolve_dedup_sublist (bs : List Bound) : (dedupB [] bs).Sublist bs := by
+  simpa using dedupB_sublist bs []
+
+/-! ## witnesses: the full statements are false, one input per exception class
+
+A four-class hierarchy `bool < int < object`, `str < object` (class numbers 2, 1, 0, 5) with its
+least upper bounds is a model of all the algebraic hypotheses; `9` is added as a "bare generic"
+that is compatible with everything both ways without being `Any`. -/
+
+def subH (a b : Nat) : Bool := a == b || b == 0 || (a == 2 && b == 1)
+
+def leH : Ty → Ty → Bool
+  | .any, _ => true
+  | _, .any => true
+  | .typed a, .typed b => subH a b
+  | _, _ => false
+
+def joinH : Ty → Ty → Ty
+  | .typed a, .typed b => if subH a b then .typed b else if subH b a then .typed a else .typed 0
+  | _, _ => .typed 0
+
+/-- `leH` plus the gradual element `typed 9` -/
+def leG : Ty → Ty → Bool
+  | .typed 9, _ => true
+  | _, .typed 9 => true
+  | a, b => leH a b
+
+def SHb : Ty → Bool
+  | .typed c => c == 0 || c == 1 || c == 2 || c == 5
+  | _ => false
+def SH (t : Ty) : Prop := SHb t = true
+instance : DecidablePred SH := fun t => inferInstanceAs (Decidable (SHb t = true))
+
+def lowerHolds (le : Ty → Ty → Bool) (join : Ty → Ty → Ty) (bs : List Bound) : Bool :=
+  match solve le join bs with | .ok s _ => satLower le bs s | _ => true
+def upperHolds (le : Ty → Ty → Bool) (join : Ty → Ty → Ty) (bs : List Bound) : Bool :=
+  match solve le join bs with | .ok s _ => satUpper le bs s | _ => true
+
+def tInt : Ty := .typed 1
+def tBool : Ty := .typed 2
+def tStr : Ty := .typed 5
+def tObj : Ty := .typed 0
+
+/-- `twoUppers`: `int >= T, str >= T` is solved to their join, which neither accepts. -/
+theorem twoUppers_witness : upperHolds leH joinH [.upper tInt, .upper tStr] = false := by decide
+theorem twoUppers_in_class : D15_twoUppers leH [.upper tInt, .upper tStr] = true := by decide
+
+/-- `anyUpper`: `bool >= T, Any >= T, int >= T, int <= T`: the `Any` bound wipes out `bool`. -/
+theorem anyUpper_witness :
+    upperHolds leH joinH [.upper tBool, .upper .any, .upper tInt, .lower tInt] = false := by decide
+theorem anyUpper_in_class : D15_anyUpper [.upper tBool, .upper .any, .upper tInt, .lower tInt] = true := by decide
+
+/-- `oneOfUpper`: `bool >= T` with constraints `(int, str)` is solved to `int`. -/
+theorem oneOfUpper_witness : upperHolds leH joinH [.upper tBool, .oneOf [tInt, tStr]] = false := by decide
+theorem oneOfUpper_in_class : D15_oneOfUpper [.upper tBool, .oneOf [tInt, tStr]] = true := by decide
+
+/-- `nonTransitive`: `str <= T, G <= T, int <= T` with a `G` compatible with both: solved to `int`. -/
+theorem nonTransitive_witness :
+    lowerHolds leG joinH [.lower tStr, .lower (.typed 9), .lower tInt] = false := by decide
+theorem nonTransitive_in_class :
+    D15_nonTransitive leG joinH [.lower tStr, .lower (.typed 9), .lower tInt] = true := by decide
+
+/-- the full upper-bound statement is false already on the lattice model -/
+theorem upperFull_false : ¬ UpperFull leH joinH := by
+  intro h
+  have := h [.upper tInt, .upper tStr] tObj .value rfl tInt (by simp [uppers])
+  exact absurd this (by decide)
+
+/-- the full lower-bound statement is false for a relation that is not transitive -/
+theorem lowerFull_false : ¬ LowerFull leG joinH := by
+  intro h
+  have := h [.lower tStr, .lower (.typed 9), .lower tInt] tInt .value rfl tStr (by simp [lowers])
+  exact absurd this (by decide)
+
+/-- order dependence without any `Any`: three upper bounds, two of them comparable (`twoUppers`) -/
+theorem order_witness_twoUppers :
+    (solve leH joinH [.upper tBool, .upper tInt, .upper tStr, .lower tStr]).isOk = true ∧
+    (solve leH joinH [.upper tInt, .upper tStr, .upper tBool, .lower tStr]).isOk = false := by decide
+
+/-- order dependence through an `Any` upper bound (`anyUpper`) -/
+theorem order_witness_anyUpper :
+    (solve leH joinH [.upper tBool, .upper .any, .upper tInt, .lower tInt]).isOk = true ∧
+    (solve leH joinH [.upper .any, .upper tBool, .upper tInt, .lower tInt]).isOk = false := by decide
+
+theorem orderFull_false : ¬ OrderFull leH joinH := by
+  intro h
+  have hp : [Bound.upper tBool, .upper tInt, .upper tStr, .lower tStr].Perm
+      [.upper tInt, .upper tStr, .upper tBool, .lower tStr] :=
+    (List.Perm.swap _ _ _).trans (List.Perm.cons _ (List.Perm.swap _ _ _))
+  have := h _ _ hp
+  rw [order_witness_twoUppers.1, order_witness_twoUppers.2] at this
+  exact absurd this (by decide)
+
+/-! ## non-vacuity -/
+
+theorem SH_cases {t : Ty} (h : SH t) : t = tObj ∨ t = tInt ∨ t = tBool ∨ t = tStr := by
+  cases t with
+  | typed c =>
+    simp only [SH, SHb, Bool.or_eq_true, beq_iff_eq] at h
+    rcases h with ((h | h) | h) | h <;> subst h <;> simp [tObj, tInt, tBool, tStr]
+  | _ => simp [SH, SHb] at h
+
+/-- the lattice model satisfies every algebraic hypothesis -/
+theorem lawsH : Laws SH leH joinH := by
+  refine ⟨?_, ?_, ?_, ?_, ?_, ?_, ?_⟩
+  · intro a ha; rcases SH_cases ha with h | h | h | h <;> subst h <;> decide
+  · intro a ha; rcases SH_cases ha with h | h | h | h <;> subst h <;> decide
+  · intro a b c ha hb hc
+    rcases SH_cases ha with h | h | h | h <;> subst h <;>
+    rcases SH_cases hb with h | h | h | h <;> subst h <;>
+    rcases SH_cases hc with h | h | h | h <;> subst h <;> decide
+  · intro a b ha hb
+    rcases SH_cases ha with h | h | h | h <;> subst h <;>
+    rcases SH_cases hb with h | h | h | h <;> subst h <;> decide
+  · intro a b ha hb
+    rcases SH_cases ha with h | h | h | h <;> subst h <;>
+    rcases SH_cases hb with h | h | h | h <;> subst h <;> decide
+  · intro a b ha hb
+    rcases SH_cases ha with h | h | h | h <;> subst h <;>
+    rcases SH_cases hb with h | h | h | h <;> subst h <;> decide
+  · intro a b c ha hb hc
+    rcases SH_cases ha with h | h | h | h <;> subst h <;>
+    rcases SH_cases hb with h | h | h | h <;> subst h <;>
+    rcases SH_cases hc with h | h | h | h <;> subst h <;> decide
+
+theorem anyLawsH : AnyLaws leH :=
+  ⟨fun b => by cases b <;> rfl, fun a => by cases a <;> rfl⟩
+
+theorem joinH_closed : ∀ a b, SH a → SH b → SH (joinH a b) := by
+  intro a b ha hb
+  rcases SH_cases ha with h | h | h | h <;> subst h <;>
+  rcases SH_cases hb with h | h | h | h <;> subst h <;> decide
+
+theorem vals_ok_of_all {l : List Ty} (h : (l.all fun v => isAny v || SHb v) = true) :
+    ∀ v ∈ l, v = .any ∨ SH v := by
+  intro v hv
+  have := List.all_eq_true.mp h v hv
+  rcases Bool.or_eq_true_iff.mp this with h | h
+  · exact Or.inl (isAny_iff.mp h)
+  · exact Or.inr h
+
+/-- a non-trivial input inside every hypothesis of the partial theorems: five bounds incl. an `Any`
+lower bound and two comparable upper bounds; accepted -/
+def exBounds : List Bound := [.lower tBool, .lower .any, .upper tObj, .lower tInt, .upper tInt]
+example : ∀ v ∈ boundVals exBounds, v = .any ∨ SH v := vals_ok_of_all (by decide)
+example : D15_anyUpper exBounds = false := by decide
+example : D15_twoUppers leH exBounds = false := by decide
+example : D15_oneOfUpper exBounds = false := by decide
+example : multiOneOf exBounds = false := by decide
+example : D15_nonTransitive leH joinH exBounds = false := by decide
+example : (solve leH joinH exBounds).isOk = true := by decide
+example : lowerHolds leH joinH exBounds = true ∧ upperHolds leH joinH exBounds = true := by decide
+/-- … and one that is rejected, with constraints: `str <= T`, `bool <= T`, `T ∈ (int, str)` -/
+def exBounds2 : List Bound := [.lower tStr, .oneOf [tInt, tStr], .lower tBool]
+example : ∀ v ∈ boundVals exBounds2, v = .any ∨ SH v := vals_ok_of_all (by decide)
+example : D15_oneOfUpper exBounds2 = false ∧ multiOneOf exBounds2 = false := by decide
+example : D15_nonTransitive leH joinH exBounds2 = false := by decide
+example : (solve leH joinH exBounds2).isOk = false ∧ specOk leH exBounds2 = false := by decide
+example : lastOneOf exBounds2 = some [tInt, tStr] := rfl
+example : ∀ cs ∈ oneOfs exBounds2, ∀ c ∈ cs, SH c := by decide
+example : ∃ a, SH a := ⟨tObj, by decide⟩
+
 end Pya.C15
